@@ -334,10 +334,13 @@ func (svr *Service) loopLoginUntilSuccess(maxInterval time.Duration, firstLoginE
 			return false, err
 		}
 
+		// Hold the configuration lock until the new control is in place: a reload either
+		// happens before (and is seen here) or after (and is applied to the new control),
+		// it can't fall in between and get lost.
 		svr.cfgMu.RLock()
+		defer svr.cfgMu.RUnlock()
 		proxyCfgs := svr.proxyCfgs
 		visitorCfgs := svr.visitorCfgs
-		svr.cfgMu.RUnlock()
 		connEncrypted := true
 		if svr.clientSpec != nil && svr.clientSpec.Type == "ssh-tunnel" {
 			connEncrypted = false
@@ -381,17 +384,18 @@ func (svr *Service) loopLoginUntilSuccess(maxInterval time.Duration, firstLoginE
 }
 
 func (svr *Service) UpdateAllConfigurer(proxyCfgs []v1.ProxyConfigurer, visitorCfgs []v1.VisitorConfigurer) error {
+	// The lock is held while the configuration is applied, see loopLoginUntilSuccess.
 	svr.cfgMu.Lock()
+	defer svr.cfgMu.Unlock()
 	svr.proxyCfgs = proxyCfgs
 	svr.visitorCfgs = visitorCfgs
-	svr.cfgMu.Unlock()
 
 	svr.ctlMu.RLock()
 	ctl := svr.ctl
 	svr.ctlMu.RUnlock()
 
 	if ctl != nil {
-		return svr.ctl.UpdateAllConfigurer(proxyCfgs, visitorCfgs)
+		return ctl.UpdateAllConfigurer(proxyCfgs, visitorCfgs)
 	}
 	return nil
 }
